@@ -30,6 +30,10 @@ type KeyKind[K any] struct {
 	// value of K (a comparator over pointer keys dereferences them), so a library that hands the
 	// comparator a key the user never supplied blows up, as it would for a real user.
 	Strict func(K) int
+	// Set, for key types with reference semantics, rewrites the key object in place so that it stands for i
+	// (a job whose due time is changed, a buffer that is reused). Only ever applied to a key that is not in
+	// a collection at that moment.
+	Set func(K, int)
 }
 
 func (kk KeyKind[K]) ord(k K) int {
@@ -41,7 +45,8 @@ func (kk KeyKind[K]) ord(k K) int {
 
 // BytesKeys are []byte keys (a key type that == cannot compare: only the user's order may be applied to it).
 var BytesKeys = KeyKind[[]byte]{Name: "bytes",
-	Mk: func(i int) []byte { return []byte(fmt.Sprintf("k%07d", i)) },
+	Set: func(k []byte, i int) { copy(k, fmt.Sprintf("k%07d", i)) },
+	Mk:  func(i int) []byte { return []byte(fmt.Sprintf("k%07d", i)) },
 	Un: func(k []byte) int {
 		if len(k) < 2 {
 			return 0
@@ -60,7 +65,8 @@ var PtrKeys = KeyKind[*int]{Name: "ptr",
 		}
 		return *k
 	},
-	Strict: func(k *int) int { return *k }}
+	Strict: func(k *int) int { return *k },
+	Set:    func(k *int, i int) { *k = i }}
 
 var IntKeys = KeyKind[int]{Name: "int", Mk: func(i int) int { return i }, Un: func(k int) int { return k }}
 
